@@ -163,6 +163,9 @@ def run(ctx, config='rel-all'):
     ctx.floor('R3', npairs, 15, 'fallible/infallible pairs')
     # ---- O4 termination of the halving retry
     check_termination(ctx, db, config)
+    # ---- R4 debug builds
+    if config == 'rel-all':
+        check_debug(ctx)
 
 
 def check_termination(ctx, db, config):
@@ -275,8 +278,9 @@ def debug_sites(ctx, config='dbg-all'):
     return done, opened
 
 
-def thorough(ctx):
-    """repeat R1 with debug assertions and overflow checks on: debug-only panics must be discharged or tabled"""
+def check_debug(ctx):
+    """R4: repeat the panic analysis with debug assertions and overflow checks on: every debug-only panic edge reachable
+    from a try_* method must be refuted by the prover or be in the justified table"""
     db = ctx.db('dbg-all')
     n = 0
     und = []
